@@ -93,7 +93,54 @@ fn builder_json(x: &Sx) -> Option<serde_json::Value> {
     Some(serde_json::Value::Object(o))
 }
 
+/// op 16 = an ADD query through query_mut: (16 idtok kind settok keytok n)
+///   ADD ANNOTATION ?new WITH [ID "a<idtok>";] DATA "s<settok>" "k<keytok>" n; TARGET ?x; { SELECT <kind> ?x }
+/// with kind 0 = ANNOTATION, 1 = RESOURCE, 2 = DATASET: one new annotation per row (= per live item,
+/// in handle order), all with the same id when one is given (so the second row fails).  The model is
+/// given the batch of builders this stands for (an op 12).
+pub fn add_query_batch(store: &AnnotationStore, op: &Sx) -> Sx {
+    let idtok = op.nth(1).int();
+    let data = l(vec![l(vec![a(0), op.nth(3).clone()]), a(-1), l(vec![a(0), op.nth(4).clone()]), l(vec![a(2), op.nth(5).clone()])]);
+    let mut v = vec![a(12)];
+    let targets: Vec<Sx> = match op.nth(2).int() {
+        0 => store.annotations().map(|x| l(vec![a(1), l(vec![a(1), a(x.handle().as_usize() as i64)])])).collect(),
+        1 => store.resources().map(|x| l(vec![a(3), l(vec![a(1), a(x.handle().as_usize() as i64)])])).collect(),
+        _ => store.datasets().map(|x| l(vec![a(4), l(vec![a(1), a(x.handle().as_usize() as i64)])])).collect(),
+    };
+    for t in targets {
+        v.push(l(vec![a(idtok), t, l(vec![data.clone()])]));
+    }
+    l(v)
+}
+
+fn add_query_string(op: &Sx) -> String {
+    let idtok = op.nth(1).int();
+    format!(
+        "ADD ANNOTATION ?new WITH {}DATA \"{}\" \"{}\" {}; TARGET ?x; {{ SELECT {} ?x }}",
+        if idtok >= 0 { format!("ID \"{}\"; ", aid(idtok)) } else { String::new() },
+        sid(op.nth(3).int()),
+        kid(op.nth(4).int()),
+        op.nth(5).int(),
+        match op.nth(2).int() {
+            0 => "ANNOTATION",
+            1 => "RESOURCE",
+            _ => "DATASET",
+        }
+    )
+}
+
 pub fn apply14(store: &mut AnnotationStore, op: &Sx) -> i64 {
+    if op.nth(0).int() == 16 {
+        let qs = add_query_string(op);
+        return match guard(|| {
+            let (query, _) = Query::parse(qs.as_str())?;
+            store.query_mut(query).map(|it| it.count())
+        }) {
+            None => -1,
+            Some(Err(_)) => 0,
+            Some(Ok(_)) => 1,
+        };
+    }
     if op.nth(0).int() == 15 {
         // annotate_from_file: the same batch read from a STAM JSON document; a batch the document
         // cannot express goes through annotate_from_iter (the model does not distinguish the two)
@@ -151,7 +198,9 @@ impl Ctx {
         let mut store = new_store();
         let mut outs = Vec::new();
         let mut nt = false;
+        let mut model_ops = Vec::new();
         for op in req.list() {
+            model_ops.push(if op.nth(0).int() == 16 { add_query_batch(&store, op) } else { op.clone() });
             let r = apply14(&mut store, op);
             outs.push(l(vec![a(r)]));
             if r != 1 {
@@ -159,7 +208,7 @@ impl Ctx {
                 outs.extend(observe(&store));
             }
         }
-        (req.clone(), outs, nt)
+        (l(model_ops), outs, nt)
     }
 }
 
@@ -189,6 +238,21 @@ pub fn generate(out: &mut Out, tier: &str, seed: u64) {
                     }
                 }
                 l(v)
+            } else if rng.chance(1, 10) || (rng.chance(1, 2) && ops.last().map(|o: &Sx| o.nth(0).int() == 16).unwrap_or(false)) {
+                // an ADD query (often the one before once more: its first row then restates the
+                // annotation that the failed attempt left, see Known_C14_batch_prefix)
+                if rng.chance(1, 2) && ops.last().map(|o: &Sx| o.nth(0).int() == 16).unwrap_or(false) {
+                    ops.last().unwrap().clone()
+                } else {
+                    l(vec![
+                        a(16),
+                        a(if rng.chance(2, 3) { rng.below(8) as i64 } else { -1 }),
+                        a(rng.below(3) as i64),
+                        a(rng.below(4) as i64),
+                        a(rng.below(4) as i64),
+                        a(rng.below(3) as i64),
+                    ])
+                }
             } else if rng.chance(1, 8) {
                 // add_dataset with 1..3 data items, one reference in four invalid
                 let items: Vec<Sx> = (0..1 + rng.below(3)).map(|_| shadow.gen_dbuild(&mut rng, &cfg)).collect();
@@ -204,6 +268,8 @@ pub fn generate(out: &mut Out, tier: &str, seed: u64) {
                 (12, _) => "batch_failed",
                 (15, 1) => "batch_from_file_ok",
                 (15, _) => "batch_from_file_failed",
+                (16, 1) => "add_query_ok",
+                (16, _) => "add_query_failed",
                 (3, 1) => "annotate_ok",
                 (3, _) => "annotate_failed",
                 (2, 1) => "insert_data_ok",
@@ -224,5 +290,5 @@ pub fn generate(out: &mut Out, tier: &str, seed: u64) {
     }
 }
 
-pub const RULE: &str = "seeded random histories of 1..12 (every 4th: 1..30) operations where one reference in four is invalid (unknown resource / annotation / dataset / key / data by id or handle, inverted and out-of-range offsets in both alignments, relative offsets beyond the parent, duplicate ids with different content, nested complex selectors, missing target, valid target with invalid data and vice versa) one operation in six is a batch (annotate_from_iter, or annotate_from_file on a STAM JSON document written for it, of 1..4 builders, the failing one at any position) and one in eight an add_dataset with 1..3 data items; after EVERY operation that returns an error (or panics) the complete observation vector of C01 (all items, all reverse lookups, text selections, vocabulary, id resolution) is compared with the one before the call. One evaluation = one outcome or item record.";
+pub const RULE: &str = "seeded random histories of 1..12 (every 4th: 1..30) operations where one reference in four is invalid (unknown resource / annotation / dataset / key / data by id or handle, inverted and out-of-range offsets in both alignments, relative offsets beyond the parent, duplicate ids with different content, nested complex selectors, missing target, valid target with invalid data and vice versa) one operation in six is a batch (annotate_from_iter, or annotate_from_file on a STAM JSON document written for it, of 1..4 builders, the failing one at any position), one in ten an ADD query through query_mut over all annotations / resources / datasets (one new annotation per row, with one id for all rows the second row fails; often repeated so that its first row restates the annotation an earlier failed attempt left) and one in eight an add_dataset with 1..3 data items; after EVERY operation that returns an error (or panics) the complete observation vector of C01 (all items, all reverse lookups, text selections, vocabulary, id resolution) is compared with the one before the call. One evaluation = one outcome or item record.";
 pub const EXHAUSTIVE: bool = false;
